@@ -1586,9 +1586,26 @@ func (d *Ledger) actRogue() {
 
 // actForged: an ESDTTransfer arriving on the destination side without being one of the world's own messages (the node hands no sender
 // account): to ordinary accounts, and to the metachain contract on the metachain shard, where it must be refused.
+// nonPayable lists the accounts the oracle of their own shard currently reports as not payable.
+func (d *Ledger) nonPayable() []string {
+	var l []string
+	for _, ai := range d.W.Addrs {
+		if ai.Shard < 0 || ai.Shard >= len(d.W.Shards) || ai.Kind == "junk" {
+			continue
+		}
+		if d.W.Shards[ai.Shard].Oracle.Table[string(ai.Bytes)] == "no" {
+			l = append(l, ai.Name)
+		}
+	}
+	return l
+}
+
 func (d *Ledger) actForged() {
 	rcpt := d.anyAcct()
-	if d.chance(40) {
+	plain := false
+	if np := d.nonPayable(); len(np) > 0 && d.chance(35) {
+		rcpt, plain = np[d.R.Intn(len(np))], true // a plain incoming transfer to an account that may not be paid
+	} else if d.chance(40) {
 		rcpt = "meta1"
 	}
 	home := d.shardOfName(rcpt)
@@ -1615,6 +1632,9 @@ func (d *Ledger) actForged() {
 		}
 	} else if d.chance(20) {
 		args = append(args, []byte("fn1"), []byte{1})
+	}
+	if plain && d.chance(70) {
+		args, ct = args[:2], vmcommon.DirectCall
 	}
 	c := &world.Call{Fn: "ESDTTransfer", Caller: d.W.Addr(caller), Rcpt: d.W.Addr(rcpt), Args: args, Gas: d.gas(), Value: big.NewInt(0), CT: ct}
 	d.record("exec", home, c)
